@@ -16,6 +16,8 @@ package pppoe
 //     S/<mac>/<sv>/<cv>/<sid>/<kind>       session-stage frame; kind: see vc04Frame (LCP codes, PAP, CHAP, IPCP, IPv6CP, IPv6, unknown)
 //     D/<sid>                              dead peer reported by the echo generator
 //     X/<sid>/<mac>/<sv>/<cv>              restore of a persisted session (installInMemoryState)
+//     W/<k>                                wait until the k-th second after the first second of the case
+//     L/<ttl_s>                            change the cookie manager's lifetime (unsafe seam)
 //     C/<n>/<sv>                           n concurrent PADRs (distinct MACs) with valid cookies
 //   -> now=<unix> <one token per op> ; n=<|sidIndex|>/<|sessions|> bulk=<in sidIndex>/<in sessions> u<uid>:<sid>:<inSid><inTup>...
 
@@ -217,11 +219,31 @@ func vc04Frame(kind string) (uint16, []byte) {
 	return 0xc021, []byte{1, 1, 0, 4}
 }
 
+// vc04WaitUntil sleeps until the wall clock is inside second `sec` (at least 100 ms into it).
+func vc04WaitUntil(sec int64) bool {
+	for {
+		t := time.Now()
+		if t.Unix() > sec {
+			return false
+		}
+		if t.Unix() == sec && t.Nanosecond() >= 100000000 {
+			return t.Nanosecond() < 900000000
+		}
+		d := time.Unix(sec, 100000000).Sub(t)
+		if d < time.Millisecond {
+			d = time.Millisecond
+		}
+		time.Sleep(d)
+	}
+}
+
 type vc04World struct {
 	c        *Component
 	bus      *vc04Bus
 	secret   []byte
-	now      int64
+	now      int64 // first second of the case: forged cookies are dated relative to it
+	cur      int64 // second the clock is in now (after W ops)
+	unstable bool
 	uid      map[*SessionState]int
 	byName   map[string]*SessionState
 	order    []*SessionState // non-bulk sessions in uid order
@@ -481,6 +503,18 @@ func (w *vc04World) op(tok string) string {
 			sb = append(sb, "u"+strconv.Itoa(u))
 		}
 		return "reach:" + strings.Join(sb, "+")
+	case "W":
+		k, _ := strconv.ParseInt(p[1], 10, 64)
+		if time.Now().Unix() != w.cur || !vc04WaitUntil(w.now+k) {
+			w.unstable = true
+		}
+		w.cur = w.now + k
+		return "-"
+	case "L":
+		n, _ := strconv.ParseInt(p[1], 10, 64)
+		tv := reflect.ValueOf(c.cookieMgr).Elem().FieldByName("ttl")
+		reflect.NewAt(tv.Type(), unsafe.Pointer(tv.UnsafeAddr())).Elem().SetInt(n * int64(time.Second))
+		return "-"
 	case "X":
 		sid, mac, sv, cv := vc04U16(p[1]), vc04Hex(p[2]), vc04U16(p[3]), vc04U16(p[4])
 		return "restored:u" + strconv.Itoa(w.restore(sid, net.HardwareAddr(mac), sv, cv, false))
@@ -579,13 +613,14 @@ func vc04Case(line string) (res string) {
 			t0 = time.Now()
 		}
 		w.now = t0.Unix()
+		w.cur = w.now
 		outs := []string{fmt.Sprintf("now=%d", w.now)}
 		for _, tok := range f[7:] {
 			outs = append(outs, w.op(tok))
 		}
 		outs = append(outs, ";", w.dump())
 		w.shutdown()
-		if time.Now().Unix() != w.now {
+		if w.unstable || time.Now().Unix() != w.cur {
 			continue
 		}
 		return strings.Join(outs, " ")
